@@ -394,6 +394,15 @@ fn replay_honest(c: &mut Concretiser, idx: usize, case: &Value) -> Value {
                             op["op"], hex::encode(&bytes), hex::encode(&want)
                         ));
                     }
+                    // the unverified view exposes the same revocation identifiers and external keys as the spec token
+                    match UnverifiedBiscuit::from(&bytes) {
+                        Ok(u) => {
+                            if byte_exact && u.revocation_identifiers() != rev_ids(c, &spec_toks[i]["tok"]) {
+                                problems.push(format!("mask {mask} step {i}: UnverifiedBiscuit::revocation_identifiers differ from the block signatures"));
+                            }
+                        }
+                        Err(e) => problems.push(format!("mask {mask} step {i}: UnverifiedBiscuit::from refuses an honest token: {e:?}")),
+                    }
                     // every honest token must be admitted under its root by all entry points, byte exact
                     let root = keys::public_of(&spec_toks[i]["root"]);
                     for (path, r) in admit(&bytes, root) {
